@@ -1,11 +1,88 @@
-/- C07 — property theorems (filled below). -/
-import SkNet.Model.Hierarchy
-import SkNet.Model.Paris
-import SkNet.Spec.Hierarchy
+/-
+C07 — hierarchical algorithms always return a valid dendrogram.
+
+Theorems about the models `SkNet.Hier.*`, `SkNet.Paris.*`, `SkNet.Dendro.reorderDendrogram`, which mirror
+sknetwork/hierarchy/{postprocess.py, louvain_hierarchy.py, paris.pyx, base.py} and are tied to the code on every run
+by tools/harness/c07.py.  `ValidDendro n D` (Spec/Dendro.lean) is the executable predicate of the statement.
+-/
+import SkNet.Lemmas.GetDendro
+import SkNet.Lemmas.Valid
 
 namespace SkNet.C07
 open SkNet SkNet.Dendro SkNet.Hier
 
-theorem getIndex_leaf (k : Nat) : getIndex (.leaf k) = k := by simp [getIndex]
+/-- **Validity implies the size clause of the statement**: in a valid dendrogram over `n` leaves the size column
+    of every row is the number of original nodes below the merge, the two children of a row were created before
+    it and are distinct, and the last row has size `n`. -/
+theorem valid_sizes {α : Type} {n : Nat} {pre : Dendro α} {r : Row α} {rs : Dendro α}
+    (hv : ValidDendro n (pre ++ r :: rs) = true) :
+    r.i < n + pre.length ∧ r.j < n + pre.length ∧ r.i ≠ r.j ∧
+    r.s = (leaves n (pre ++ r :: rs) (n + pre.length)).length ∧ (rs = [] → r.s = n) := by
+  obtain ⟨h1, h2, h3, _, h5⟩ := valid_row hv
+  exact ⟨h1, h2, h3, h5, fun e => by subst e; exact valid_last_size hv⟩
+
+example : ValidDendro 4 ([⟨0, 1, 1, 2⟩, ⟨2, 3, 2, 2⟩, ⟨4, 5, 3, 4⟩] : Dendro Nat) = true := by decide
+
+/-- **get_dendrogram** (tree → dendrogram, with the `size` dict and the running index): for every tree over the
+    leaves `0 … n-1` whose inner lists have at least two elements — what `_recursive_louvain` and `_get_hierarchy`
+    build — the rows returned form a valid dendrogram over `n` leaves: `n-1` rows, row `t` merges two distinct live
+    clusters, the size column is the number of leaves below (`valid_sizes`). -/
+theorem getDendrogram_valid (ts : List Tree) (n : Nat) (hwf : WF (.node ts))
+    (hperm : (tleaves (.node ts)).Perm (List.range n)) :
+    ∃ rows, getDendrogram (.node ts) = .ok rows ∧ ValidDendro n rows = true := by
+  have hlen : (tleaves (.node ts)).length = n := by simpa using hperm.length_eq
+  have h2 : 2 ≤ ts.length := by simp only [WF] at hwf; exact hwf.1
+  -- at least one leaf
+  have hn : 0 < n := by
+    rcases ts with _ | ⟨t, ts⟩
+    · simp at h2
+    · have : tleaves t ≠ [] := by
+        have hwt : WF t := by simp only [WF, WFL] at hwf; exact hwf.2.1
+        revert hwt
+        refine Tree.rec (motive_1 := fun t => WF t → tleaves t ≠ [])
+          (motive_2 := fun ts => WFL ts → ts ≠ [] → tleavesL ts ≠ []) ?_ ?_ ?_ ?_ t
+        · intro k _; simp [tleaves]
+        · intro ts ih hw
+          simp only [WF] at hw
+          simp only [tleaves]
+          exact ih hw.2 (by intro e; subst e; simp at hw)
+        · intro _ h; exact absurd rfl h
+        · intro t ts iht _ hw _
+          simp only [WFL] at hw
+          simp only [tleavesL]
+          intro e
+          exact iht hw.1 (List.append_eq_nil_iff.mp e).1
+      simp only [tleaves, tleavesL, List.length_append] at hlen
+      have : 0 < (tleaves t).length := List.length_pos_iff.mpr this
+      omega
+  let st0 : GState := { rows := [], index := getIndex (.node ts), size := [] }
+  have hidx : getIndex (.node ts) + 1 = n := by
+    rw [getIndex_eq]; exact listMax_perm_range hn hperm
+  have g0 : GInv n st0 (liveInit (List.replicate n 1)) := by
+    refine ⟨rfl, ?_, by simpa [st0] using hidx, fun _ _ => rfl, fun _ _ => rfl⟩
+    have := linv_init (List.replicate n 1)
+    simpa [st0] using this
+  have hpre : PreLeaves n (tleaves (.node ts)) (liveInit (List.replicate n 1)) := by
+    refine ⟨hperm.nodup_iff.mpr List.nodup_range, fun x hx => ?_⟩
+    have : x < n := by simpa using hperm.mem_iff.mp hx
+    exact ⟨this, liveInit_get? n x this⟩
+  obtain ⟨root, st', L', e, g, _, hcnt, _, _, _⟩ := specTree_all n (.node ts) 0 st0 _ g0 hwf hpre
+  refine ⟨st'.rows, ?_, ?_⟩
+  · unfold getDendrogram
+    simp only [show ts.length > 1 by omega, if_true]
+    show (procTree 0 (.node ts) st0).map _ = _
+    rw [e]; rfl
+  · unfold ValidDendro ValidDendroW
+    simp only [List.length_replicate, Bool.and_eq_true, beq_iff_eq]
+    refine ⟨?_, ?_⟩
+    · simp only [st0, List.length_nil] at hcnt; omega
+    · rw [validLoop_eq_isSome, g.live]; rfl
+
+/-- non-vacuity: the tree `[[[0],[1]],[[2],[3]],[[4],[5],[6]]]` (the witness of the repaired defect F7) -/
+example : WF (.node [.node [.leaf 0, .leaf 1], .node [.leaf 2, .leaf 3], .node [.leaf 4, .leaf 5, .leaf 6]]) ∧
+    (getDendrogram (.node [.node [.leaf 0, .leaf 1], .node [.leaf 2, .leaf 3],
+      .node [.leaf 4, .leaf 5, .leaf 6]])).toOption.map (fun rows => ValidDendro 7 rows && lastSizeIs 7 rows)
+      = some true := by
+  refine ⟨by simp [WF, WFL], by decide⟩
 
 end SkNet.C07
